@@ -31,6 +31,16 @@ def run(res, replay=None):
             # keep every size within [1e-3, 1e9] after rescaling
             c = 2.0 ** j
             cases.append({'spec': s, 'c': c, 'regularize_check': moderate})
+    if not replay:
+        # large time units: sizes near the upper end of the claimed range, changes that touch only migration rates
+        for i in range(3 if res.tier == 'quick' else 12):
+            s = gen.rand_spec(rng, n_total=rng.choice([2, 3]), n_demes=2, n_epochs=2, end_time='never', size_range=(-2, 0),
+                              kinds=('kingman',))
+            s['pop_sizes'] = {p: {'0.0': d['0.0']} for p, d in s['pop_sizes'].items()}
+            t1 = repr(rng.choice([0.5, 0.75, 1.25]))
+            ks = list(s['migration_rates'])
+            s['migration_rates'] = {ks[0]: {'0.0': 0.0625, t1: 0.5}, ks[1]: {'0.0': 0.125, t1: 0.25}}
+            cases.append({'spec': s, 'c': 2.0 ** rng.choice([27, 29]), 'regularize_check': False})
     results = orc.run_oracle(res, 'scaling', cases)
     res.extra['input_distribution'] = {
         'c': sorted({c['c'] for c in cases}),
